@@ -3,7 +3,7 @@ import FimVerif.Proofs.Lemmas.TopoAtomicGraph
 /-!
 # C07 — how the conjuncts of `Topo.Inv` behave under the three ways the building calls change the graph
 
-* `ext s N E`: fresh nodes `N` and edges `E` are appended (every creating call);
+* `grow s N E`: fresh nodes `N` and edges `E` are appended (every creating call);
 * `dropNode r s`: a node goes with its edges (every removing call);
 * `mapNodes f s`: nodes are rewritten in place keeping id, class and type (set/unset property, rename).
 -/
@@ -12,12 +12,12 @@ open FimVerif FimVerif.M
 
 /-! ## extension by fresh nodes and edges -/
 
-def ext (s : Topo) (N : List GNode) (E : List GEdge) : Topo := ⟨s.nodes ++ N, s.edges ++ E⟩
+def grow (s : Topo) (N : List GNode) (E : List GEdge) : Topo := ⟨s.nodes ++ N, s.edges ++ E⟩
 
 /-- the new edges alone -/
 def only (E : List GEdge) : Topo := ⟨[], E⟩
 
-structure ExtOk (s : Topo) (N : List GNode) (E : List GEdge) : Prop where
+structure GrowOk (s : Topo) (N : List GNode) (E : List GEdge) : Prop where
   fresh : ∀ n ∈ N, ∀ m ∈ s.nodes, m.nid ≠ n.nid
   nodup : (N.map (·.nid)).Nodup
   vocab : ∀ n ∈ N, nodeOk n = true
@@ -47,8 +47,8 @@ theorem no_edge_into_new {s : Topo} (hc : ClosedOk s) {n : GNode} (h : ∀ m ∈
   obtain ⟨⟨x, hx, hxe⟩, ⟨y, hy, hye⟩⟩ := hc e he
   exact ⟨by rw [← hxe]; exact ref_ne_of_fresh h hx, by rw [← hye]; exact ref_ne_of_fresh h hy⟩
 
-theorem idsOk_ext {s : Topo} {N : List GNode} {E : List GEdge} (hi : IdsOk s) (hx : ExtOk s N E) : IdsOk (ext s N E) := by
-  unfold IdsOk ext
+theorem idsOk_grow {s : Topo} {N : List GNode} {E : List GEdge} (hi : IdsOk s) (hx : GrowOk s N E) : IdsOk (grow s N E) := by
+  unfold IdsOk grow
   simp only [List.map_append]
   rw [List.nodup_append]
   refine ⟨hi, hx.nodup, ?_⟩
@@ -57,38 +57,38 @@ theorem idsOk_ext {s : Topo} {N : List GNode} {E : List GEdge} (hi : IdsOk s) (h
   obtain ⟨n, hn, rfl⟩ := List.mem_map.mp hb
   exact hx.fresh n hn m hm
 
-theorem closedOk_ext {s : Topo} {N : List GNode} {E : List GEdge} (hc : ClosedOk s) (hx : ExtOk s N E) : ClosedOk (ext s N E) := by
+theorem closedOk_grow {s : Topo} {N : List GNode} {E : List GEdge} (hc : ClosedOk s) (hx : GrowOk s N E) : ClosedOk (grow s N E) := by
   intro e he
-  simp only [ext, List.mem_append] at he
+  simp only [grow, List.mem_append] at he
   rcases he with he | he
   · obtain ⟨⟨x, hx', hxe⟩, ⟨y, hy, hye⟩⟩ := hc e he
-    exact ⟨⟨x, by simp [ext, hx'], hxe⟩, ⟨y, by simp [ext, hy], hye⟩⟩
+    exact ⟨⟨x, by simp [grow, hx'], hxe⟩, ⟨y, by simp [grow, hy], hye⟩⟩
   · exact hx.ends e he
 
-theorem vocabOk_ext {s : Topo} {N : List GNode} {E : List GEdge} (hv : VocabOk s) (hx : ExtOk s N E) : VocabOk (ext s N E) := by
+theorem vocabOk_grow {s : Topo} {N : List GNode} {E : List GEdge} (hv : VocabOk s) (hx : GrowOk s N E) : VocabOk (grow s N E) := by
   intro n hn
-  simp only [ext, List.mem_append] at hn
+  simp only [grow, List.mem_append] at hn
   rcases hn with hn | hn
   · exact hv n hn
   · exact hx.vocab n hn
 
-theorem schemaOk_ext {s : Topo} {N : List GNode} {E : List GEdge} (hv : SchemaOk s) (hx : ExtOk s N E) : SchemaOk (ext s N E) := by
+theorem schemaOk_grow {s : Topo} {N : List GNode} {E : List GEdge} (hv : SchemaOk s) (hx : GrowOk s N E) : SchemaOk (grow s N E) := by
   intro e he
-  simp only [ext, List.mem_append] at he
+  simp only [grow, List.mem_append] at he
   rcases he with he | he
   · exact hv e he
   · exact hx.schema e he
 
 /-- a new edge never ends in an old node, unless it comes from a link -/
-theorem ExtOk.into_old {s : Topo} {N : List GNode} {E : List GEdge} (hx : ExtOk s N E) {e : GEdge} (he : e ∈ E) {m : GNode}
+theorem GrowOk.into_old {s : Topo} {N : List GNode} {E : List GEdge} (hx : GrowOk s N E) {e : GEdge} (he : e ∈ E) {m : GNode}
     (hm : m ∈ s.nodes) (hb : e.b = m.ref) : e.a.cls = .link ∧ m.typ ≠ "ServicePort" := by
   rcases hx.into e he with ⟨n, hn, hne⟩ | ⟨hl, hsp⟩
   · exact absurd (hne.trans hb).symm (ref_ne_of_fresh (hx.fresh n hn) hm)
   · exact ⟨hl, fun ht => hsp m hm ht hb.symm⟩
 
-theorem ownersOf_ext_old {s : Topo} {N : List GNode} {E : List GEdge} (hx : ExtOk s N E) {m : GNode} (hm : m ∈ s.nodes) :
-    ownersOf (ext s N E) m.ref = ownersOf s m.ref := by
-  unfold ownersOf ext
+theorem ownersOf_grow_old {s : Topo} {N : List GNode} {E : List GEdge} (hx : GrowOk s N E) {m : GNode} (hm : m ∈ s.nodes) :
+    ownersOf (grow s N E) m.ref = ownersOf s m.ref := by
+  unfold ownersOf grow
   apply filter_append_right_nil
   intro e he
   by_cases hb : e.b = m.ref
@@ -96,9 +96,9 @@ theorem ownersOf_ext_old {s : Topo} {N : List GNode} {E : List GEdge} (hx : ExtO
     simp [isOwnerCls, this]
   · simp [hb]
 
-theorem parentsOf_ext_old {s : Topo} {N : List GNode} {E : List GEdge} (hx : ExtOk s N E) {m : GNode} (hm : m ∈ s.nodes) :
-    parentsOf (ext s N E) m.ref = parentsOf s m.ref := by
-  unfold parentsOf ext
+theorem parentsOf_grow_old {s : Topo} {N : List GNode} {E : List GEdge} (hx : GrowOk s N E) {m : GNode} (hm : m ∈ s.nodes) :
+    parentsOf (grow s N E) m.ref = parentsOf s m.ref := by
+  unfold parentsOf grow
   apply filter_append_right_nil
   intro e he
   by_cases hb : e.b = m.ref
@@ -106,34 +106,34 @@ theorem parentsOf_ext_old {s : Topo} {N : List GNode} {E : List GEdge} (hx : Ext
     simp [isIfParentCls, this]
   · simp [hb]
 
-theorem linksOf_ext_old {s : Topo} {N : List GNode} {E : List GEdge} (hx : ExtOk s N E) {m : GNode} (hm : m ∈ s.nodes)
-    (hsp : m.typ = "ServicePort") : linksOf (ext s N E) m.ref = linksOf s m.ref := by
-  unfold linksOf ext
+theorem linksOf_grow_old {s : Topo} {N : List GNode} {E : List GEdge} (hx : GrowOk s N E) {m : GNode} (hm : m ∈ s.nodes)
+    (hsp : m.typ = "ServicePort") : linksOf (grow s N E) m.ref = linksOf s m.ref := by
+  unfold linksOf grow
   apply filter_append_right_nil
   intro e he
   by_cases hb : e.b = m.ref
   · exact absurd hsp (hx.into_old he hm hb).2
   · simp [hb]
 
-theorem ownersOf_ext_new {s : Topo} {N : List GNode} {E : List GEdge} (hc : ClosedOk s) (hx : ExtOk s N E) {n : GNode} (hn : n ∈ N) :
-    ownersOf (ext s N E) n.ref = ownersOf (only E) n.ref := by
-  unfold ownersOf ext only
+theorem ownersOf_grow_new {s : Topo} {N : List GNode} {E : List GEdge} (hc : ClosedOk s) (hx : GrowOk s N E) {n : GNode} (hn : n ∈ N) :
+    ownersOf (grow s N E) n.ref = ownersOf (only E) n.ref := by
+  unfold ownersOf grow only
   apply filter_append_left_nil
   intro e he
   have := (no_edge_into_new hc (hx.fresh n hn) e he).2
   simp [this]
 
-theorem parentsOf_ext_new {s : Topo} {N : List GNode} {E : List GEdge} (hc : ClosedOk s) (hx : ExtOk s N E) {n : GNode} (hn : n ∈ N) :
-    parentsOf (ext s N E) n.ref = parentsOf (only E) n.ref := by
-  unfold parentsOf ext only
+theorem parentsOf_grow_new {s : Topo} {N : List GNode} {E : List GEdge} (hc : ClosedOk s) (hx : GrowOk s N E) {n : GNode} (hn : n ∈ N) :
+    parentsOf (grow s N E) n.ref = parentsOf (only E) n.ref := by
+  unfold parentsOf grow only
   apply filter_append_left_nil
   intro e he
   have := (no_edge_into_new hc (hx.fresh n hn) e he).2
   simp [this]
 
-theorem linksOf_ext_new {s : Topo} {N : List GNode} {E : List GEdge} (hc : ClosedOk s) (hx : ExtOk s N E) {n : GNode} (hn : n ∈ N) :
-    linksOf (ext s N E) n.ref = linksOf (only E) n.ref := by
-  unfold linksOf ext only
+theorem linksOf_grow_new {s : Topo} {N : List GNode} {E : List GEdge} (hc : ClosedOk s) (hx : GrowOk s N E) {n : GNode} (hn : n ∈ N) :
+    linksOf (grow s N E) n.ref = linksOf (only E) n.ref := by
+  unfold linksOf grow only
   apply filter_append_left_nil
   intro e he
   have := (no_edge_into_new hc (hx.fresh n hn) e he).2
@@ -146,17 +146,17 @@ theorem flatMap_congr' {α β : Type} {l : List α} {f g : α → List β} (h : 
     simp only [List.flatMap_cons]
     rw [h a (List.mem_cons_self ..), ih (fun b hb => h b (List.mem_cons_of_mem _ hb))]
 
-theorem spPeers_ext_old {s : Topo} {N : List GNode} {E : List GEdge} (hc : ClosedOk s) (hx : ExtOk s N E) {m : GNode}
-    (hm : m ∈ s.nodes) (hsp : m.typ = "ServicePort") : spPeers (ext s N E) m.ref = spPeers s m.ref := by
+theorem spPeers_grow_old {s : Topo} {N : List GNode} {E : List GEdge} (hc : ClosedOk s) (hx : GrowOk s N E) {m : GNode}
+    (hm : m ∈ s.nodes) (hsp : m.typ = "ServicePort") : spPeers (grow s N E) m.ref = spPeers s m.ref := by
   unfold spPeers
-  rw [linksOf_ext_old hx hm hsp]
+  rw [linksOf_grow_old hx hm hsp]
   apply flatMap_congr'
   intro e1 he1
   have he1' := List.mem_filter.mp he1
   have hl : e1.a.cls = .link := by
     have := he1'.2; simp only [Bool.and_eq_true, beq_iff_eq] at this; exact this.2
   obtain ⟨⟨x, hxm, hxe⟩, _⟩ := hc e1 he1'.1
-  simp only [ext]
+  simp only [grow]
   apply filter_append_right_nil
   intro e2 he2
   by_cases ha : e2.a = e1.a
@@ -164,17 +164,17 @@ theorem spPeers_ext_old {s : Topo} {N : List GNode} {E : List GEdge} (hc : Close
     exact absurd (hxe.trans (ha.symm.trans hne.symm)) (ref_ne_of_fresh (hx.fresh n hn) hxm)
   · simp [ha]
 
-theorem spPeers_ext_new {s : Topo} {N : List GNode} {E : List GEdge} (hc : ClosedOk s) (hx : ExtOk s N E) {n : GNode}
-    (hn : n ∈ N) : spPeers (ext s N E) n.ref = spPeers (only E) n.ref := by
+theorem spPeers_grow_new {s : Topo} {N : List GNode} {E : List GEdge} (hc : ClosedOk s) (hx : GrowOk s N E) {n : GNode}
+    (hn : n ∈ N) : spPeers (grow s N E) n.ref = spPeers (only E) n.ref := by
   unfold spPeers
-  rw [linksOf_ext_new hc hx hn]
+  rw [linksOf_grow_new hc hx hn]
   apply flatMap_congr'
   intro e1 he1
   have he1' := List.mem_filter.mp he1
   have hl : e1.a.cls = .link := by
     have := he1'.2; simp only [Bool.and_eq_true, beq_iff_eq] at this; exact this.2
   obtain ⟨k, hk, hke⟩ := hx.linkNew e1 he1'.1 hl
-  simp only [ext, only]
+  simp only [grow, only]
   apply filter_append_left_nil
   intro e2 he2
   have := (no_edge_into_new hc (hx.fresh k hk) e2 he2).1
@@ -182,44 +182,44 @@ theorem spPeers_ext_new {s : Topo} {N : List GNode} {E : List GEdge} (hc : Close
   simp [this]
 
 /-- the structural invariant survives an extension whose new components / interfaces / service ports are complete -/
-theorem invS_ext {s : Topo} {N : List GNode} {E : List GEdge} (h : InvS s) (hx : ExtOk s N E)
+theorem invS_grow {s : Topo} {N : List GNode} {E : List GEdge} (h : InvS s) (hx : GrowOk s N E)
     (hcomp : ∀ n ∈ N, n.cls = .component → (ownersOf (only E) n.ref).length = 1)
     (hif : ∀ n ∈ N, n.cls = .connectionPoint → (parentsOf (only E) n.ref).length = 1)
     (hsp : ∀ n ∈ N, n.cls = .connectionPoint → n.typ = "ServicePort" → (spPeers (only E) n.ref).length = 1) :
-    InvS (ext s N E) := by
-  refine ⟨idsOk_ext h.ids hx, closedOk_ext h.closed hx, vocabOk_ext h.vocab hx, schemaOk_ext h.schema hx, ?_, ?_, ?_⟩
+    InvS (grow s N E) := by
+  refine ⟨idsOk_grow h.ids hx, closedOk_grow h.closed hx, vocabOk_grow h.vocab hx, schemaOk_grow h.schema hx, ?_, ?_, ?_⟩
   · intro n hn hcls
     rcases List.mem_append.mp hn with hn | hn
-    · rw [ownersOf_ext_old hx hn]; exact h.compOwned n hn hcls
-    · rw [ownersOf_ext_new h.closed hx hn]; exact hcomp n hn hcls
+    · rw [ownersOf_grow_old hx hn]; exact h.compOwned n hn hcls
+    · rw [ownersOf_grow_new h.closed hx hn]; exact hcomp n hn hcls
   · intro n hn hcls
     rcases List.mem_append.mp hn with hn | hn
-    · rw [parentsOf_ext_old hx hn]; exact h.ifaceOwned n hn hcls
-    · rw [parentsOf_ext_new h.closed hx hn]; exact hif n hn hcls
+    · rw [parentsOf_grow_old hx hn]; exact h.ifaceOwned n hn hcls
+    · rw [parentsOf_grow_new h.closed hx hn]; exact hif n hn hcls
   · intro n hn hcls ht
     rcases List.mem_append.mp hn with hn | hn
-    · rw [spPeers_ext_old h.closed hx hn ht]; exact h.spPeer n hn hcls ht
-    · rw [spPeers_ext_new h.closed hx hn]; exact hsp n hn hcls ht
+    · rw [spPeers_grow_old h.closed hx hn ht]; exact h.spPeer n hn hcls ht
+    · rw [spPeers_grow_new h.closed hx hn]; exact hsp n hn hcls ht
 
 /-- same for the downward-closed invariant -/
-theorem invD_ext {s : Topo} {N : List GNode} {E : List GEdge} (h : InvD s) (hx : ExtOk s N E)
+theorem invD_grow {s : Topo} {N : List GNode} {E : List GEdge} (h : InvD s) (hx : GrowOk s N E)
     (hcomp : ∀ n ∈ N, n.cls = .component → (ownersOf (only E) n.ref).length ≤ 1)
     (hif : ∀ n ∈ N, n.cls = .connectionPoint → (parentsOf (only E) n.ref).length ≤ 1)
     (hsp : ∀ n ∈ N, n.cls = .connectionPoint → n.typ = "ServicePort" → (spPeers (only E) n.ref).length ≤ 1) :
-    InvD (ext s N E) := by
-  refine ⟨idsOk_ext h.ids hx, closedOk_ext h.closed hx, vocabOk_ext h.vocab hx, schemaOk_ext h.schema hx, ?_, ?_, ?_⟩
+    InvD (grow s N E) := by
+  refine ⟨idsOk_grow h.ids hx, closedOk_grow h.closed hx, vocabOk_grow h.vocab hx, schemaOk_grow h.schema hx, ?_, ?_, ?_⟩
   · intro n hn hcls
     rcases List.mem_append.mp hn with hn | hn
-    · rw [ownersOf_ext_old hx hn]; exact h.compOwned n hn hcls
-    · rw [ownersOf_ext_new h.closed hx hn]; exact hcomp n hn hcls
+    · rw [ownersOf_grow_old hx hn]; exact h.compOwned n hn hcls
+    · rw [ownersOf_grow_new h.closed hx hn]; exact hcomp n hn hcls
   · intro n hn hcls
     rcases List.mem_append.mp hn with hn | hn
-    · rw [parentsOf_ext_old hx hn]; exact h.ifaceOwned n hn hcls
-    · rw [parentsOf_ext_new h.closed hx hn]; exact hif n hn hcls
+    · rw [parentsOf_grow_old hx hn]; exact h.ifaceOwned n hn hcls
+    · rw [parentsOf_grow_new h.closed hx hn]; exact hif n hn hcls
   · intro n hn hcls ht
     rcases List.mem_append.mp hn with hn | hn
-    · rw [spPeers_ext_old h.closed hx hn ht]; exact h.spPeer n hn hcls ht
-    · rw [spPeers_ext_new h.closed hx hn]; exact hsp n hn hcls ht
+    · rw [spPeers_grow_old h.closed hx hn ht]; exact h.spPeer n hn hcls ht
+    · rw [spPeers_grow_new h.closed hx hn]; exact hsp n hn hcls ht
 
 theorem InvS.down {s : Topo} (h : InvS s) : InvD s :=
   ⟨h.ids, h.closed, h.vocab, h.schema, fun n hn hc => Nat.le_of_eq (h.compOwned n hn hc),
